@@ -1,0 +1,20 @@
+//go:build verif
+
+// Machine-checked contracts for package tagreplication (comment-only; read by /verif/govc).
+// Property C33: a tag is put to the remote build-index only after every dependency blob has been
+// confirmed present in the remote origin cluster.
+//
+// originCluster.replicated is the ghost set of blobs whose replication to the remote cluster was
+// confirmed (ReplicateToRemote returned nil); remote.has is the ghost set of tags the remote
+// build-index holds (contracts/externs/clients.spec).
+
+package tagreplication
+
+//@ func Executor.Exec
+//@   requires e != nil && e.originCluster != nil && e.tagClientProvider != nil && r != nil
+//@   modifies *
+//@   assert dependencies_first: at Client.PutAndReplicate#0 :: forall j int :: 0 <= j && j < len(t.Dependencies) ==> (t.Dependencies[j].hex in e.originCluster.replicated)
+//@   ensures success_means_remote_has_tag: result == nil ==> (unbox(r, *Task).Tag in e.tagClientProvider.client[unbox(r, *Task).Destination].has)
+//@   loop 0 invariant idx: 0 - 1 <= rangeindex && rangeindex < len(t.Dependencies)
+//@   loop 0 invariant done: forall j int :: 0 <= j && j <= rangeindex ==> (t.Dependencies[j].hex in e.originCluster.replicated)
+//@   loop 0 invariant same_task: t != nil && e.originCluster == entry(e.originCluster)
